@@ -67,6 +67,16 @@ def run_case(case, res):
                         pth = os.path.join(tmp, "tree.nutree")
                         t.save(pth, compression=comp, meta=user_meta, key_map=km, value_map=vm, **save_kw)
                         t2 = load_cls.load(pth, file_meta=fmeta, **load_kw)
+                        if case["flavour"] == "fs":
+                            # the file says which keys were shortened; a base-class loader with the same mappers reads the same tree
+                            from nutree import Tree as _BaseTree
+
+                            from nutree.fs import FileSystemTree as _FST
+
+                            tb = _BaseTree.load(pth, mapper=_FST.deserialize_mapper)
+                            res.count("base_class_loads")
+                            if sergen.shape(tb) != src:
+                                bad.append(f"[{label}] Tree.load() with the FileSystemTree mappers differs: {sergen.shape(tb)} vs {src}")
                         if comp is False and load_cls.__name__ in ("Tree", "MyTree", "FileSystemTree"):
                             # a file that was written uncompressed can be read with the detection switched off
                             t2c = load_cls.load(pth, auto_uncompress=False, **load_kw)
